@@ -3,7 +3,7 @@
 correspondence: Model/RRule.lean (`construct`, `iter`) vs dateutil.rrule.rrule on seeded rules
 oracle:         dateutil.rrule.rrule vs Spec/RRule.lean (`window`, `byOk`, `onGrid`) + intrinsic laws
 """
-import datetime, signal, json, itertools
+import sys, datetime, signal, json, itertools
 import basecorr
 import vlib
 
@@ -271,8 +271,57 @@ def item(x):
 FUEL = {0: 700, 1: 4000, 2: 6000, 3: 20000, 4: 40000, 5: 40000, 6: 40000}
 
 
-def run_impl(c, n, tcap=0.15):
-    """(status, items, rule-or-None): status in ctor_<Kind> | more | stop | err_<Kind> | cap"""
+class _TurnCap(BaseException):
+    pass
+
+
+WORKCAP = 400000               # executed source lines of dateutil.rrule allowed per rule run (about 0.1 s)
+_WORK = [0, 1 << 62]           # lines executed / allowed
+TIME_FAILSAFE = [0]            # rule runs stopped by the wall-clock failsafe (expected: 0)
+_CAP_KIND = ["lines"]
+
+
+def _install_work_counter():
+    """deterministic cap on one rule run: the number of source lines of dateutil/rrule.py executed while iterating
+    (sys.monitoring LINE events on the code objects of rrule / rrulebase / _iterinfo), so which rules are cut off
+    is a function of the rule and of the source, not of the machine load.  Covers the turns of the generator's
+    loop, the BY-filter loop over the days, the reachability loops of MINUTELY / SECONDLY and the result loops."""
+    from dateutil import rrule as R
+    if getattr(R, "_verif_work_counter", False):
+        return
+    R._verif_work_counter = True
+    mon = getattr(sys, "monitoring", None)
+    if mon is None:                                   # Python < 3.12: count the turns of the loop instead
+        _CAP_KIND[0] = "turns"
+        for name in ("ydayset", "mdayset", "wdayset", "ddayset"):
+            f = getattr(R._iterinfo, name)
+
+            def g(self, *a, _f=f):
+                _WORK[0] += 10
+                if _WORK[0] > _WORK[1]:
+                    raise _TurnCap()
+                return _f(self, *a)
+            setattr(R._iterinfo, name, g)
+        return
+    import types
+    tool = next(t for t in (4, 3, 5) if mon.get_tool(t) is None)
+    mon.use_tool_id(tool, "verif-c01-work")
+
+    def cb(code, line):
+        _WORK[0] += 1
+        if _WORK[0] > _WORK[1]:
+            raise _TurnCap()
+    mon.register_callback(tool, mon.events.LINE, cb)
+    for cls in (R.rrule, R.rrulebase, R._iterinfo):
+        for f in vars(cls).values():
+            if isinstance(f, types.FunctionType):
+                mon.set_local_events(tool, f.__code__, mon.events.LINE)
+
+
+def run_impl(c, n, work=None, failsafe=10.0):
+    """(status, items, rule-or-None): status in ctor_<Kind> | more | stop | err_<Kind> | cap
+    cap = the generator executed WORKCAP source lines without delivering `n` items"""
+    _install_work_counter()
     try:
         r = build(c)
     except _Timeout:
@@ -281,8 +330,9 @@ def run_impl(c, n, tcap=0.15):
         return "ctor_" + type(ex).__name__, [], None
     items, status = [], "more"
     old = signal.signal(signal.SIGALRM, _alarm)
+    _WORK[0], _WORK[1] = 0, (WORKCAP if work is None else work)
     try:
-        signal.setitimer(signal.ITIMER_REAL, tcap)
+        signal.setitimer(signal.ITIMER_REAL, failsafe)
         try:
             it = iter(r)
             while len(items) < n:
@@ -291,15 +341,20 @@ def run_impl(c, n, tcap=0.15):
                 except StopIteration:
                     status = "stop"
                     break
+        except _TurnCap:
+            status = "cap"
         except _Timeout:
             status = "cap"
+            TIME_FAILSAFE[0] += 1
         except Exception as ex:
             status = "err_" + type(ex).__name__
         finally:
             signal.setitimer(signal.ITIMER_REAL, 0)
     except _Timeout:
         status = "cap"
+        TIME_FAILSAFE[0] += 1
     finally:
+        _WORK[1] = 1 << 62
         signal.signal(signal.SIGALRM, old)
     return status, items, r
 
@@ -316,7 +371,7 @@ def plan_until(c, rng):
     u = None
     if plan in ("on", "on+1", "on-1", "on+us"):
         c2 = dict(c); c2.pop("count", None)
-        st, items, _ = run_impl(c2, rng.randint(1, 8), tcap=0.3)
+        st, items, _ = run_impl(c2, rng.randint(1, 8))
         if items:
             x = items[-1].replace(tzinfo=None)
             try:
@@ -387,6 +442,19 @@ def split_resp(resp):
     return t[1], t[2:]
 
 
+def classify(ctx, cases, tag):
+    """which exactness theorem (RRule.family, Spec/RRuleSupported.lean = the hypothesis of
+    iter_eq_spec_supported_partial) covers each sampled rule"""
+    for c, rsp in zip(cases, ctx.driver(["rrule.supported " + wire(c) for c in cases])):
+        fam = rsp.split()[1] if rsp.startswith("ok ") else "-"
+        ctx.count("rules_sampled")
+        ctx.count(tag + "_rules_sampled")
+        if fam != "-":
+            ctx.count("rules_under_exactness_theorem")
+            ctx.count(tag + "_rules_under_exactness_theorem")
+            ctx.count("theorem_family_" + fam)
+
+
 def correspondence(ctx):
     basecorr.run(ctx)
     cases = list(WITNESS_CASES) + gen_cases(ctx, "corr", ctx.budget(300, 5000), malformed_rate=0.15)
@@ -395,6 +463,7 @@ def correspondence(ctx):
     got_c = ctx.driver(reqs_c)
     got_i = ctx.driver(reqs_i)
     got_o = ctx.driver(["rrule.orig " + wire(c) for c in cases])
+    classify(ctx, cases, "corr")
     for c, gc, gi, go in zip(cases, got_c, got_i, got_o):
         st, items, r = run_impl(c, c["n"])
         ctx.traces += 1
@@ -432,9 +501,12 @@ def correspondence(ctx):
                 ctx.count("corr_end_" + mst)
     # the spec's window enumeration against its plain definition
     sc = [c for c in gen_cases(ctx, "specself", ctx.budget(150, 1500), freqs=[0, 1, 2, 3]) if c["interval"] <= 30]
+    # … also for the sub-daily frequencies (where the oracle is all there is for rules with BYHOUR / BYMINUTE /
+    # BYSECOND): more periods, since most periods of a sparse rule are empty
+    sc += [c for c in gen_cases(ctx, "specself-sub", ctx.budget(90, 900), freqs=[4, 5, 6]) if c["interval"] <= 5000]
     if sc:
-        NP = 14
-        r1 = ctx.driver(["rrule.occ %s %d" % (wire(c), NP) for c in sc])
+        NPS = {0: 14, 1: 14, 2: 14, 3: 14, 4: 300, 5: 1500, 6: 3000}
+        r1 = ctx.driver(["rrule.occ %s %d" % (wire(c), NPS[c["freq"]]) for c in sc])
         # the window that covers exactly those periods: ask for everything up to the last item of occ
         reqs2, keep = [], []
         for c, a in zip(sc, r1):
@@ -448,6 +520,7 @@ def correspondence(ctx):
         for (c, its), b in zip(keep, r2):
             w = b.split()[2:]
             ctx.count("spec_selfcheck")
+            ctx.count("spec_selfcheck_freq_%d" % c["freq"])
             if w[:len(its)] != its:
                 ctx.mismatch("rrule.spec vs rrule.occ", wire(c), " ".join(its), " ".join(w))
 
@@ -459,6 +532,7 @@ HCAP = {0: 160000, 1: 60000, 2: 40000, 3: 120000, 4: 40000, 5: 20000, 6: 8000}
 WITNESS_CASES = [
     # D-C01a
     {"freq": 1, "interval": 1, "wkst": None, "dtstart": [2020, 1, 1, 9, 0, 0, 0], "kind": "naive", "byweekday": [[0, 0], [1, 1]], "n": 6, "until": [2021, 1, 1, 0, 0, 0, 0]},
+    {"freq": 1, "interval": 1, "wkst": None, "dtstart": [2020, 1, 1, 9, 0, 0, 0], "kind": "naive", "byweekday": [[0, 0], [0, 1]], "n": 6},
     # D-C01c
     {"freq": 0, "interval": 1, "wkst": 1, "dtstart": [2033, 12, 1, 0, 0, 0, 0], "kind": "naive", "byweekno": [52], "byweekday": [[6, 0]], "n": 4},
     {"freq": 0, "interval": 1, "wkst": 0, "dtstart": [2020, 1, 1, 0, 0, 0, 0], "kind": "naive", "byweekno": [-53], "n": 14},
@@ -510,6 +584,12 @@ def sweep_cases(full):
                 out.append(base(0, y, bymonth=[2, 12], byweekday=[[wd, n]]))
             for n in (list(range(-53, 0)) + list(range(1, 54)) if full else (-53, -52, -1, 1, 52, 53)):
                 out.append(base(0, y, byweekday=[[wd, n]]))
+            # YEARLY + BYMONTH with two adjacent months: an ordinal that does not exist in the first month
+            # (5th / -5th weekday) must not spill into the neighbour
+            if full or wd in (1, 4):
+                for m in range(1, 12):
+                    for n in ((-5, -4, 4, 5) if full or m in (1, 2) else (-5, 5)):
+                        out.append(base(0, y, bymonth=[m, m + 1], byweekday=[[wd, n]]))
     for y in ((1996, 2000, 2008, 2038) if full else (2008,)):
         for o in (range(-80, 251) if full else range(-80, 251, 17)):
             out.append(base(0, y, byeaster=[o]))
@@ -539,6 +619,16 @@ def oracle(ctx):
         if len(unknown_violations(ctx)) >= 3:
             ctx.note("oracle stopped after %d generated rules: failing inputs found" % (i + 500))
             break
+    ctx.note("rules_under_exactness_theorem: %d of %d sampled rules (%.1f %%) satisfy `SupportedBy` for some family, i.e. lie under "
+             "iter_eq_spec_supported_partial; per family: %s"
+             % (ctx.hist.get("rules_under_exactness_theorem", 0), ctx.hist.get("rules_sampled", 0),
+                100.0 * ctx.hist.get("rules_under_exactness_theorem", 0) / max(1, ctx.hist.get("rules_sampled", 0)),
+                ", ".join("%s %d" % (k[len("theorem_family_"):], v) for k, v in sorted(ctx.hist.items()) if k.startswith("theorem_family_"))))
+    ncap = ctx.hist.get("corr_status_cap", 0) + ctx.hist.get("oracle_status_cap", 0)
+    nall = sum(v for k, v in ctx.hist.items() if k.startswith("corr_status_") or k.startswith("oracle_status_"))
+    ctx.note("per-rule cap = %d executed source %s of dateutil/rrule.py (a function of the rule, not of the clock): "
+             "%d of %d rule runs were cut off and compared on the prefix delivered so far; wall-clock failsafe hits: %d"
+             % (WORKCAP, _CAP_KIND[0], ncap, nall, TIME_FAILSAFE[0]))
 
 
 def report(ctx, what, case, detail=None):
@@ -555,7 +645,43 @@ def report(ctx, what, case, detail=None):
     ctx.violation(what, case, detail)
 
 
+def model_agrees(st, items, resp):
+    """does the Lean model (`rrule.iter`) do on this rule what the implementation did?  (the comparison of the
+    correspondence check)"""
+    mst, mitems = split_resp(resp)
+    iitems = [item(x) for x in items]
+    if st == "cap" or mst == "fuel":
+        k = min(len(iitems), len(mitems))
+        return iitems[:k] == mitems[:k]
+    mcls = "stop" if mst.startswith("stop_") else mst
+    return (st, iitems) == (mcls, mitems)
+
+
+def flush(ctx, pending):
+    """a failure is KNOWN only if it lies in a listed class AND the implementation's output on the rule is the
+    model's output — the model reproduces the listed defects exactly (Properties/C01.lean, the D-C01a/c/d/e
+    examples), so a different wrong answer inside a class is reported as a violation with the rule as replay"""
+    inclass = [p for p in pending if any(_safe(k, {"what": p[0], "case": p[1]}) for k in CLASS.values())]
+    if inclass:
+        rs = ctx.driver(["rrule.iter %s %d %d" % (wire(p[3]), p[3]["n"], FUEL[p[3]["freq"]]) for p in inclass])
+        for p, resp in zip(inclass, rs):
+            ok = model_agrees(p[4], p[5], resp)
+            p[1]["model_agrees"] = ok
+            ctx.count("known_class_model_agrees" if ok else "known_class_but_model_differs")
+            if not ok and p[2] is not None:
+                p[2]["model"] = resp[:300]
+    for what, case, detail, c, st, items in pending:
+        report(ctx, what, case, detail if detail else None)
+
+
 def evaluate(ctx, cases):
+    pending = []
+    _evaluate(ctx, cases, pending)
+    flush(ctx, pending)
+
+
+def _evaluate(ctx, cases, pending):
+    classify(ctx, cases, "oracle")
     runs = []
     for c in cases:
         st, items, r = run_impl(c, c["n"])
@@ -589,6 +715,8 @@ def evaluate(ctx, cases):
     resps = [next(rl) if q is not None else None for q in reqs]
     by = ctx.driver(["rrule.byok %s %s" % (wire(c), " ".join(item(x) for x in items)) for c, st, items, r in runs])
     for (c, st, items, r), q, hi, flags, rsp in zip(runs, reqs, meta, by, resps):
+        def pend(what, case, detail, c=c, st=st, items=items):
+            pending.append((what, case, {} if detail is None else detail, c, st, items))
         key = canon(c)
         ctx.count("oracle_freq_%d" % c["freq"])
         ctx.count("oracle_status_" + st)
@@ -616,13 +744,13 @@ def evaluate(ctx, cases):
                 break
         if bad:
             ctx.case(key)
-            report(ctx, "%s: %s" % (bad[0], item(items[bad[1]])), dict(case, diff={"kind": "law", "index": bad[1], "impl": item(items[bad[1]])}), None)
+            pend("%s: %s" % (bad[0], item(items[bad[1]])), dict(case, diff={"kind": "law", "index": bad[1], "impl": item(items[bad[1]])}), None)
             continue
         fl = flags.split()[1] if flags.startswith("ok ") and len(flags.split()) > 1 else ""
         if "0" in fl:
             i = fl.index("0")
             ctx.case(key)
-            report(ctx, "wrong instant %s: it does not satisfy the BY parts / interval grid of the rule" % item(items[i]),
+            pend("wrong instant %s: it does not satisfy the BY parts / interval grid of the rule" % item(items[i]),
                           dict(case, diff={"kind": "wrong-instant", "index": i, "impl": item(items[i]), "spec": None}), None)
             continue
         if q is None:
@@ -640,16 +768,16 @@ def evaluate(ctx, cases):
                 ctx.count("oracle_error_at_year_9999")
                 continue
             if kind != "ValueError":
-                report(ctx, "%s raised %s" % ("constructor" if st.startswith("ctor_") else "first iteration", kind),
+                pend("%s raised %s" % ("constructor" if st.startswith("ctor_") else "first iteration", kind),
                               dict(case, diff={"kind": "exception", "exc": kind, "spec": S[0] if S else None}), None)
             elif S:
-                report(ctx, "ValueError although the rule matches %s" % S[0], dict(case, diff={"kind": "exception", "exc": kind, "spec": S[0]}), None)
+                pend("ValueError although the rule matches %s" % S[0], dict(case, diff={"kind": "exception", "exc": kind, "spec": S[0]}), None)
             else:
                 ctx.count("oracle_valueerror_and_spec_empty")
             continue
         if st.startswith("err_") and not at_end:
             ctx.case(key)
-            report(ctx, "%s raised while iterating after %d items" % (st[4:], len(items)),
+            pend("%s raised while iterating after %d items" % (st[4:], len(items)),
                           dict(case, diff={"kind": "exception", "exc": st[4:], "index": len(items)}), None)
             continue
         # prefix comparison
@@ -671,7 +799,7 @@ def evaluate(ctx, cases):
             ctx.count("oracle_cap_skipped")
         ctx.case(key, nontrivial=(st != "cap"))
         if diff:
-            report(ctx, "sequence differs from the recurrence set at index %d: implementation %s, specification %s"
+            pend("sequence differs from the recurrence set at index %d: implementation %s, specification %s"
                           % (diff["index"], diff["impl"], diff["spec"]), dict(case, diff=diff), {"impl": I[:k + 2], "spec": S[:k + 2], "status": st})
         else:
             ctx.count("oracle_agree")
@@ -741,7 +869,15 @@ def k_c01e(v):
     return False
 
 
-KNOWN = {"D-C01a": k_c01a, "D-C01c": k_c01c, "D-C01d": k_c01d, "D-C01e": k_c01e}
+CLASS = {"D-C01a": k_c01a, "D-C01c": k_c01c, "D-C01d": k_c01d, "D-C01e": k_c01e}
+
+
+def _known(pred):
+    return lambda v: v["case"].get("model_agrees") is True and pred(v)
+
+
+# class predicate AND "the implementation did what the model does" (set by flush)
+KNOWN = {k: _known(p) for k, p in CLASS.items()}
 
 
 def replay(ctx, payload):
